@@ -81,7 +81,7 @@ PROPS = {
     },
     'C15': {
         'race': True,
-        'level_text': "Theorems C15_sequence / C15_interleaving (the model controller's only state, the shared response cells, is never written; every history and interleaving gives each request its solo response) and the regenerated structural obligations C15_responses_fresh (F6: every store to an AdmissionResponse field in package admission goes through a fresh response; shared ones are written by init only) C15_no_global_state (F8) and C15_no_receiver_state (F9: no method writes through its receiver or into package-level maps / sync state outside CompleteConfiguration, so the controller keeps no cache between requests). The repository's own client-backed NamespaceGetter / PodLister are run in front of a slow fake API server with overlapping requests, some of which give up early; one real Admission handles random request batches sequentially and from 16 goroutines under the race detector; every response is DeepEqual-compared with a fresh controller's.",
+        'level_text': "Theorems C15_sequence / C15_interleaving (the model controller's only state, the shared response cells, is never written; every history and interleaving gives each request its solo response) and the regenerated structural obligations C15_responses_fresh (F6: every store to an AdmissionResponse field in package admission goes through a fresh response; shared ones are written by init only) C15_no_global_state (F8) and C15_no_receiver_state (F9: no method writes through its receiver or into package-level maps / sync state outside CompleteConfiguration, so the controller keeps no cache between requests). The repository's own client-backed NamespaceGetter / PodLister are run in front of a slow fake API server with overlapping requests, some of which give up early; one real Admission handles random request batches sequentially and from 16 goroutines under the race detector; every response is DeepEqual-compared with a fresh controller's. C15_shared_responses_never_written: in the store machine whose program is the regenerated list of stores to AdmissionResponse fields, every schedule of every number of handlers leaves the shared responses unchanged.",
         'level_note': "Trusted: Lean kernel; factx's go/ssa origin analysis; harness. The model is stateless by construction, so the substance of the tie is the structural facts plus the runtime comparison. Partial: data-race freedom is observed, not proved.",
         'rule': "batches of 48 mixed pod / controller / namespace requests over a 6-namespace cluster (several namespaces share an effective policy, some with fail-open label typos), real evaluator; 2 sequential passes in random order + 16 concurrent passes per batch. distinct_nontrivial = requests",
     },
